@@ -311,21 +311,25 @@ def gen_groups(rng, count, tag, kinds=("fgroup", "fgroup_keyed", "sgroup", "sgro
     return out
 
 
-def gen_fair(rng, cfg, count, tag):
-    """merge with one always-ready input f (script of items only, long enough never to run out)"""
+def gen_fair(rng, cfg, count, tag, large=False):
+    """merge with one always-ready input f (script of items only, long enough never to run out)
+       large: 12 .. 70 inputs, most of them always ready too (the starvation C17 excludes needs competitors that never pause)"""
     out = []
     for c in range(count):
         cont, n = pick_container(rng, cfg, "merge", allow_zero=False)
-        if n > 8:
+        if large:
+            cont = "array" if (cfg == "nostd" or rng.random() < 0.4) else "vec"
+            n = rng.choice([12, 16, 23, 65]) if cont == "array" else rng.choice([13, 22, 23, 30, 64, 65, 70])
+        elif n > 8:
             n = rng.randint(1, 8)
             cont = "vec" if cfg != "nostd" else "array"
             if cont == "array" and n not in ARRAY_SIZES:
                 n = 5
         f = rng.randrange(n)
-        npolls = rng.randint(n, 3 * n + 4)
+        npolls = rng.randint(n, min(3 * n + 4, 96) if large else 3 * n + 4)       # (item tags are 100 * input + k: k < 100)
         scs = []
         for i in range(n):
-            if i == f:
+            if i == f or (large and rng.random() < 0.6):
                 scs.append(",".join(f"I{100*(i+1)+k}" for k in range(npolls + 2)))
             else:
                 scs.append(sscript(rng, n, i, 0.0))
